@@ -25,13 +25,14 @@ Proof. exact undefined_is_error. Qed.
 
 (* The same at full strength on query strings, with lexer and parser in front of the evaluator (proofs/LexExpr.v, ParseChains.v,
    ExprEval.v, QueryExpr.v): take ANY expression built from well-formed decimal literals, percentages, parentheses and the
-   operators + - * / ^ ** -- any number of operators, any nesting, blanks wherever the lexer lets a token end ([lexable]: each
+   operators + - * / ^ ** ([numeric_expr]: the numeric fragment of the expression syntax of proofs/ParseChains.v) -- any number of
+   operators, any nesting, blanks wherever the lexer lets a token end ([lexable]: each
    token spelled as the lexer spells it and followed by a character at which it can end) -- and type its text as a query. The
    answer is one result: exactly the rational number that exact arithmetic assigns to the expression grouped as the documented
    grammar prescribes ([sem_expr]: `^` over `* /` over `+ -`, left to right, parenthesised groups on their own), or an error,
    never a number, where that is undefined. *)
 Theorem C01_query_expression : forall debug describe facts (w0 : ParseChains.blanks) (e : ParseChains.expr) (w1 : ParseChains.blanks),
-  LexExpr.lexable (ParseChains.wst w0 ++ ParseChains.toks_expr e ++ ParseChains.wst w1) ->
+  QueryExpr.numeric_expr e -> LexExpr.lexable (ParseChains.wst w0 ++ ParseChains.toks_expr e ++ ParseChains.wst w1) ->
   exists r, Run.query debug describe facts (LexExpr.text_of (ParseChains.wst w0 ++ ParseChains.toks_expr e ++ ParseChains.wst w1)) = ([r], []) /\
             agrees r (denote (ExprEval.sem_expr e)).
 Proof. exact QueryExpr.query_expression. Qed.
